@@ -11,7 +11,7 @@ from .common import Failure, f2h, h2f, parse_reply, vec
 
 ID = "C15"
 BIN = "c15"
-PROOF_MODULES = ["Compute.Props.C15"]
+PROOF_MODULES = ["Compute.Props.C15", "Compute.Props.C15Extra"]
 REQUIRED_THEOREMS = [
     "Cv.C15.applyOp_wf", "Cv.C15.wf_preserved", "Cv.C15.wf_preserved_keep",
     "Cv.C15.reshape_keeps_data", "Cv.C15.reshape_isSome_iff", "Cv.C15.reshape_rejects",
@@ -25,6 +25,12 @@ REQUIRED_THEOREMS = [
     "Cv.C15.vecCloseTo_iff", "Cv.C15.vecCloseTo_never_opposite_sign", "Cv.C15.vecEq_iff", "Cv.C15.vecEq_opposite_sign",
     "Cv.C15.transposeData_spec", "Cv.C15.colToRowMajor_spec", "Cv.C15.isSymmetricU_spec", "Cv.C15.diagU_spec",
     "Cv.C15.Legacy.F24_breaks_invariant", "Cv.C15.Legacy.F25_wrong_diagonal", "Cv.C15.Legacy.F38_panics_on_tall",
+    # coverage extension (Props/C15Extra.lean)
+    "Cv.C15.size_eq_length", "Cv.C15.size_after_run", "Cv.C15.vecZeros_spec", "Cv.C15.vecOnes_spec", "Cv.C15.vecEmptyN_length",
+    "Cv.C15.withShape_spec", "Cv.C15.withShapeFill_spec", "Cv.C15.withCapacity_spec", "Cv.C15.dataMutSet_spec",
+    "Cv.C15.sumRows_length", "Cv.C15.sumCols_length", "Cv.C15.sumRows_get", "Cv.C15.sumCols_get", "Cv.C15.sumRows_sum",
+    "Cv.C15.sumCols_sum", "Cv.C15.stableSort_eq_insertionSort", "Cv.C15.vecSort_spec", "Cv.C15.vecSort_linearOrder",
+    "Cv.C15.vecSort_none_iff", "Cv.C15.vecSort_short", "Cv.C15.applyOpX_wf", "Cv.C15.wf_preserved_X", "Cv.C15.wf_preserved_keep_X",
 ]
 RULE = ("random sessions of 1..40 structural operations (19 state-changing kinds, 12 query kinds) on matrices "
         "loaded with 1..8 rows/columns (non-square included, occasional zero dimensions), reply = shape + data bits "
@@ -108,6 +114,8 @@ def ref_apply(m, t):
     if op in ("load", "vreshape"):
         d = [h2f(x) for x in t[4:]]
         return ref_new(d, int(t[1]), int(t[2]))
+    if op in XSTATE_OPS:
+        return ref_apply_x(m, t)
     if m.zero_dim() and op not in ("load", "vreshape"):
         return UNSPEC
     if op in ("reshape", "reshape_mut"):
@@ -184,6 +192,114 @@ def ref_apply(m, t):
     raise KeyError(op)
 
 
+def is_nan(x):
+    return x != x
+
+
+def stable_sorted(d):
+    """Reference sort: Python's sort is stable and compares with `<` only, so -0.0 / 0.0 keep their input order."""
+    return sorted(d)
+
+
+def sort_expect(d):
+    """Vector::sort: a NaN in a slice of length >= 2 makes `partial_cmp(..).unwrap()` panic."""
+    if len(d) >= 2 and any(is_nan(x) for x in d):
+        return PANIC
+    return stable_sorted(d)
+
+
+def ref_apply_x(m, t):
+    """Coverage extension (sort through data_mut, element write through data_mut, with_shape, with_capacity,
+    row / column sums as a new matrix).  Defined for zero dimensions as well."""
+    op = t[0]
+    if op == "sort_data":
+        e = sort_expect(m.flat())
+        return PANIC if e == PANIC else Ref.from_flat(e, m.r, m.c)
+    if op == "dmset":
+        k, v = int(t[1]), h2f(t[2])
+        if k >= m.r * m.c:
+            return PANIC
+        d = m.flat()
+        d[k] = v
+        return Ref.from_flat(d, m.r, m.c)
+    if op == "with_shape_fill":
+        r, c, v = int(t[1]), int(t[2]), h2f(t[3])
+        return Ref.from_flat([v] * (r * c), r, c)
+    if op == "with_capacity":
+        r, c = int(t[1]), int(t[2])
+        # an "empty matrix with capacity r*c" can satisfy the invariant only with r*c = 0
+        return Ref.from_flat([], r, c) if r * c == 0 else PANIC
+    if op == "sumrows_mat":     # approximate (plain left-to-right float sums): used by the generator only
+        return Ref([[sum(row, 0.0) for row in m.rows]], 1, m.r)
+    if op == "sumcols_mat":
+        return Ref([[sum((row[j] for row in m.rows), 0.0) for j in range(m.c)]], 1, m.c)
+    raise KeyError(op)
+
+
+SUM_C = 32.0           # |sum - exact| <= SUM_C * n * eps * sum|a_i|   (observed max ratio 0.30 over seeds 1..5; theory <= 1)
+
+
+def check_sum(vals, got, what):
+    """One row/column sum against the exact rational sum."""
+    n = len(vals)
+    if any(is_nan(x) for x in vals):
+        return None if is_nan(got) else "%s of values containing NaN is %r, expected NaN" % (what, got)
+    pinf, ninf = any(x == math.inf for x in vals), any(x == -math.inf for x in vals)
+    if pinf or ninf:
+        if any(abs(x) > 1e300 and abs(x) != math.inf for x in vals):
+            return None
+        if pinf and ninf:
+            return None if is_nan(got) else "%s of +inf and -inf is %r, expected NaN" % (what, got)
+        e = math.inf if pinf else -math.inf
+        return None if got == e else "%s is %r, expected %r" % (what, got, e)
+    sabs = sum(Fraction(abs(x)) for x in vals)
+    if sabs > Fraction(10) ** 300:
+        return None          # intermediate overflow possible: not judged
+    if is_nan(got) or abs(got) == math.inf:
+        return "%s of finite values is %r" % (what, got)
+    ex = sum(Fraction(x) for x in vals)
+    err = abs(Fraction(got) - ex)
+    if sabs == 0:
+        return None if got == 0 else "%s of zeros is %r" % (what, got)
+    ratio = err / (max(n, 1) * Fraction(EPS) * sabs)
+    OBS["sum"] = max(OBS["sum"], float(ratio))
+    if ratio > SUM_C:
+        return "%s = %r differs from the exact sum %.17g by %.3g (bound %g n eps sum|a|)" % (what, got, float(ex), float(err), SUM_C)
+    return None
+
+
+def check_sums(m, axis, toks):
+    """`toks` = `len v1 ... vlen` reply of sum_rows (axis 0) / sum_cols (axis 1) for reference matrix m."""
+    want = m.r if axis == 0 else m.c
+    if int(toks[0]) != want or len(toks) != 1 + want:
+        return "%s has %s entries, expected %d" % ("sum_rows" if axis == 0 else "sum_cols", toks[0], want)
+    for k in range(want):
+        vals = m.rows[k] if axis == 0 else [row[k] for row in m.rows]
+        msg = check_sum(vals, h2f(toks[1 + k]), "%s[%d]" % ("sum_rows" if axis == 0 else "sum_cols", k))
+        if msg:
+            return msg
+    return None
+
+
+def check_sorted(d, toks):
+    """Exact permutation + sortedness + stability of a sort reply `len v1 ...` for input d (no panic expected)."""
+    out = toks[1:]
+    if int(toks[0]) != len(d) or len(out) != len(d):
+        return "sorted vector has %s entries, expected %d" % (toks[0], len(d))
+    if sorted(out) != sorted(f2h(x) for x in d):
+        return "sorted vector is not a permutation of the input (as bit patterns)"
+    v = [h2f(x) for x in out]
+    for a, b in zip(v, v[1:]):
+        if not (a <= b):
+            return "sorted vector is not non-decreasing: %r before %r" % (a, b)
+    if out != [f2h(x) for x in stable_sorted(d)]:
+        return "sort is not stable (equal keys -0.0 / 0.0 reordered)"
+    return None
+
+
+XSTATE_OPS = {"sort_data", "dmset", "with_shape_fill", "with_capacity", "sumrows_mat", "sumcols_mat"}
+XQUERY_OPS = {"shape", "size", "sum_rows", "sum_cols"}
+XSTATELESS_OPS = {"vnew", "vempty", "vzeros", "vones", "vwith_capacity", "vempty_n", "vsort", "with_shape"}
 STATE_OPS = {"load", "vreshape", "reshape", "reshape_mut", "t", "t_mut", "hcat", "vcat", "hrepeat", "vrepeat",
              "arow", "acol", "fset", "set2", "tovec_tomat", "rowmat", "colmat", "diagmat", "r2c", "c2r"}
 QUERY_OPS = {"row", "col", "fidx", "get2", "diag", "tovec", "is_sq", "is_sym", "is_up", "is_lo", "close", "eq"}
@@ -375,7 +491,7 @@ def ref_stateless(t):
 VDM_C = 400.0         # |powi(x,i) - x^i| <= VDM_C * (log2(i+1)+1) * eps * |x^i|  (observed max factor 2.96, seeds 1..5)
 LIN_C = 400.0         # |linspace[i] - exact| <= LIN_C * eps * max(|a|,|b|)        (observed max 1.6)
 ROT_C = 400.0         # |R^T R - I|, |det R - 1| <= ROT_C * eps                    (observed max 0.65)
-OBS = {"vdm": 0.0, "lin": 0.0, "rot": 0.0}
+OBS = {"vdm": 0.0, "lin": 0.0, "rot": 0.0, "sum": 0.0}
 
 
 def check_vandermonde(d, n, toks):
@@ -492,6 +608,114 @@ def check_rot(dirn, ax, ang, toks):
 
 
 # ------------------------------------------------------------------------------------------ oracle
+def oracle_extra(fails, i, l, t, st, toks, m):
+    """Clauses of the coverage extension; returns the new reference state."""
+    op = t[0]
+
+    def fail(key, msg, exp=None):
+        fails.append(Failure(i, key, msg, exp))
+
+    if op in XSTATE_OPS:
+        got = None
+        if st == "ok":
+            r, c = int(toks[0]), int(toks[1])
+            if len(toks) - 2 != r * c:
+                fail("%s:wf" % op, "matrix invariant broken: %dx%d holds %d elements" % (r, c, len(toks) - 2))
+                return Ref.from_flat(([h2f(x) for x in toks[2:]] + [0.0] * (r * c))[:r * c], r, c)
+            got = Ref.from_flat([h2f(x) for x in toks[2:]], r, c)
+        if op in ("sumrows_mat", "sumcols_mat"):
+            if st == "panic":
+                fail("%s:panic" % op, "valid request on a %dx%d matrix panicked" % (m.r, m.c))
+                return m
+            axis = 0 if op == "sumrows_mat" else 1
+            want = m.r if axis == 0 else m.c
+            if (got.r, got.c) != (1, want):
+                fail("%s:data" % op, "result is %dx%d, expected 1x%d" % (got.r, got.c, want))
+                return got
+            msg = check_sums(m, axis, [str(want)] + toks[2:])
+            if msg:
+                fail("%s:value" % op, msg)
+            return got
+        if op == "with_capacity" and int(t[1]) * int(t[2]) > 0:
+            # `Matrix::with_capacity(r, c)` hands an EMPTY vector to `Matrix::new(.., r, c)`: the invariant allows
+            # only a panic (current behaviour) or a matrix without elements
+            if st == "ok" and len(toks) != 2:
+                fail("with_capacity:data", "with_capacity returned %d elements, an empty matrix was announced" % (len(toks) - 2))
+            return got if got is not None else m
+        exp = ref_apply_x(m, t)
+        if exp == PANIC:
+            if st != "panic":
+                fail("%s:accepted-impossible" % op, "impossible request accepted: %s -> %s" % (l[:80], " ".join(toks)[:80]))
+                return got
+            return m
+        if st == "panic":
+            fail("%s:panic" % op, "valid request on a %dx%d matrix panicked: %s" % (m.r, m.c, l[:80]))
+            return m
+        if op == "sort_data":
+            msg = None
+            if (got.r, got.c) != (m.r, m.c):
+                msg = "sort changed the shape %dx%d to %dx%d" % (m.r, m.c, got.r, got.c)
+            else:
+                msg = check_sorted(m.flat(), [str(m.r * m.c)] + toks[2:])
+            if msg:
+                fail("sort_data:data", msg)
+                return got
+            return exp
+        etoks = [str(exp.r), str(exp.c)] + [f2h(x) for x in exp.flat()]
+        if toks != etoks:
+            fail("%s:data" % op, "after `%s` on a %dx%d matrix the implementation holds %s, expected %s"
+                 % (" ".join(t[:4]), m.r, m.c, " ".join(toks)[:160], " ".join(etoks)[:160]), " ".join(etoks))
+            return got
+        return exp
+    if st == "panic" and not (op == "vsort"):
+        fail("%s:panic" % op, "valid request panicked: %s" % l[:100])
+        return m
+    if op == "shape":
+        if toks != [str(m.r), str(m.c)]:
+            fail("shape:value", "shape() = %s, the matrix is %dx%d" % (" ".join(toks), m.r, m.c))
+    elif op == "size":
+        if toks != [str(m.r * m.c)]:
+            fail("size:value", "size() = %s, the matrix is %dx%d" % (" ".join(toks), m.r, m.c))
+    elif op in ("sum_rows", "sum_cols"):
+        msg = check_sums(m, 0 if op == "sum_rows" else 1, toks)
+        if msg:
+            fail("%s:value" % op, msg)
+    elif op == "vnew":
+        if toks != t[1:]:
+            fail("vnew:value", "Vector::new changed its data")
+    elif op == "vempty":
+        if toks != ["0"]:
+            fail("vempty:value", "Vector::empty() has %s elements" % toks[0])
+    elif op in ("vzeros", "vones"):
+        n = int(t[1])
+        e = vec([0.0 if op == "vzeros" else 1.0] * n).split()
+        if toks != e:
+            fail("%s:value" % op, "%s(%d) = %s" % (op, n, " ".join(toks)[:100]))
+    elif op == "vwith_capacity":
+        if toks != ["0"]:
+            fail("vwith_capacity:value", "Vector::with_capacity(n) has %s elements" % toks[0])
+    elif op == "vempty_n":
+        if toks != [t[1]]:
+            fail("vempty_n:value", "Vector::empty_n(%s) has %s elements" % (t[1], toks[0]))
+    elif op == "with_shape":
+        r, c = int(t[1]), int(t[2])
+        if toks != [str(r), str(c), str(r * c)]:
+            fail("with_shape:value", "Matrix::with_shape(%d,%d) reports %s" % (r, c, " ".join(toks)))
+    elif op == "vsort":
+        d = [h2f(x) for x in t[2:]]
+        e = sort_expect(d)
+        if e == PANIC:
+            if st != "panic":
+                fail("vsort:accepted-impossible", "sort of a vector containing NaN returned %s" % " ".join(toks)[:100])
+        elif st == "panic":
+            fail("vsort:panic", "sort of a NaN-free vector panicked: %s" % l[:100])
+        else:
+            msg = check_sorted(d, toks)
+            if msg:
+                fail("vsort:value", msg)
+    return m
+
+
 def opclass(t):
     return t[0]
 
@@ -510,6 +734,9 @@ def oracle(lines, impl):
             continue
         if st not in ("ok", "panic"):
             fails.append(Failure(i, "%s:infra" % op, "unexpected reply %r" % rep))
+            continue
+        if op in XSTATE_OPS or op in XQUERY_OPS or op in XSTATELESS_OPS:
+            m = oracle_extra(fails, i, l, t, st, toks, m)
             continue
         if op in STATE_OPS:
             exp = ref_apply(m, t)
@@ -721,7 +948,8 @@ def gen_program(rng, lines, cover, nops):
         kind = rng.choice(["reshape", "reshape_mut", "t", "t_mut", "hcat", "vcat", "hrepeat", "vrepeat", "arow", "acol",
                            "fset", "set2", "tovec_tomat", "rowmat", "colmat", "diagmat", "r2c", "c2r",
                            "row", "col", "fidx", "get2", "diag", "tovec", "is_sq", "is_sym", "is_up", "is_lo", "close", "eq",
-                           "reshape", "t", "hcat", "vcat", "is_up", "is_sym", "close", "load"])
+                           "reshape", "t", "hcat", "vcat", "is_up", "is_sym", "close", "load",
+                           "shape", "size", "sum_rows", "sum_cols", "sort_data", "dmset"])
         size = m.r * m.c
         if kind in ("reshape", "reshape_mut"):
             divs = [k for k in range(1, max(size, 1) + 1) if size % k == 0] or [1]
@@ -742,7 +970,8 @@ def gen_program(rng, lines, cover, nops):
                 line = "%s %d %d" % (kind, b, a)
             if bad and rng.chance(0.1):
                 line = "%s -1 -1" % kind
-        elif kind in ("t", "t_mut", "tovec_tomat", "diagmat", "r2c", "c2r", "diag", "tovec", "is_sq", "is_sym", "is_up", "is_lo"):
+        elif kind in ("t", "t_mut", "tovec_tomat", "diagmat", "r2c", "c2r", "diag", "tovec", "is_sq", "is_sym", "is_up", "is_lo",
+                      "shape", "size", "sum_rows", "sum_cols", "sort_data"):
             line = kind
         elif kind in ("hcat", "vcat"):
             if kind == "hcat":
@@ -780,10 +1009,10 @@ def gen_program(rng, lines, cover, nops):
             line = "%s %d" % (kind, j)
             if kind == "acol":
                 line += " %s %s" % (f2h(rng.choice([2.0, -1.0, 0.5, 1.0, rng.normal()])), f2h(rng.choice([0.0, 1.0, rng.normal()])))
-        elif kind in ("fset", "fidx"):
+        elif kind in ("fset", "fidx", "dmset"):
             k = rng.randint(0, max(size - 1, 0)) if not bad else size + rng.randint(0, 3)
             line = "%s %d" % (kind, k)
-            if kind == "fset":
+            if kind in ("fset", "dmset"):
                 line += " " + f2h(rand_val(rng))
         elif kind in ("set2", "get2"):
             i = rng.randint(0, max(m.r - 1, 0))
@@ -815,7 +1044,7 @@ def gen_program(rng, lines, cover, nops):
         lines.append(line)
         t = line.split()
         cover[kind] = cover.get(kind, 0) + 1
-        if t[0] in STATE_OPS:
+        if t[0] in STATE_OPS or t[0] in XSTATE_OPS:
             e = ref_apply(m, t)
             if e == UNSPEC:
                 # zero-dimension corner: restart the session with a fresh matrix so that the generator's
@@ -1192,6 +1421,126 @@ def gen_directed(rng, lines, cover, scale):
     cover["directed:lines"] = len(lines) - n0
 
 
+SORT_LENS = [0, 1, 2, 3, 4, 7, 8, 9, 15, 16, 17, 19, 20, 21, 31, 32, 33, 63, 64, 65, 100, 257]
+SUM_WIDTHS = [1, 2, 3, 7, 8, 9, 15, 16, 17, 23, 24, 25, 31, 32, 33]
+
+
+def sum_data(rng, n, kind):
+    if kind == 0:
+        return [rng.normal() * 10 ** rng.randint(-3, 3) for _ in range(n)]
+    if kind == 1:
+        return [float(rng.randint(-9, 9)) for _ in range(n)]
+    if kind == 2:   # cancellation: large terms of both signs and small ones
+        return [rng.choice([1e16, -1e16, 1.0, -1.0, 0.1, 1e-8, 3.0]) for _ in range(n)]
+    if kind == 3:   # signed zeros only
+        return [rng.choice([0.0, -0.0]) for _ in range(n)]
+    if kind == 4:   # special entries at random positions
+        d = [rng.normal() for _ in range(n)]
+        for _ in range(rng.randint(1, 2)):
+            d[rng.randint(0, n - 1)] = rng.choice([float("nan"), float("inf"), float("-inf"), -0.0, 0.0, 1e300, 5e-324])
+        return d
+    if kind == 5:   # extreme scale (exact powers of two)
+        sc = 2.0 ** rng.choice([500, -500])
+        return [float(rng.randint(-9, 9)) * sc for _ in range(n)]
+    return [rng.choice(EXACT) for _ in range(n)]
+
+
+def sort_data(rng, n):
+    kind = rng.randint(0, 8)
+    if kind == 0:
+        d = [rng.normal() for _ in range(n)]
+    elif kind == 1:   # many ties
+        d = [float(rng.randint(-3, 3)) for _ in range(n)]
+    elif kind == 2:   # signed zeros among equal keys: stability is observable
+        d = [rng.choice([0.0, -0.0, 0.0, -0.0, 1.0, -1.0]) for _ in range(n)]
+    elif kind == 3:   # already sorted / reversed / sawtooth
+        d = sorted(rng.normal() for _ in range(n))
+        if rng.chance(0.5):
+            d.reverse()
+        elif rng.chance(0.3) and n > 2:
+            d = d[n // 2:] + d[:n // 2]
+    elif kind == 4:   # all equal
+        d = [rng.choice([0.0, -0.0, 2.5])] * n
+    elif kind == 5:   # infinities, subnormals, extremes
+        d = [rng.choice([float("inf"), float("-inf"), 5e-324, -5e-324, 1e308, -1e308, 0.0, -0.0, 1.0]) for _ in range(n)]
+    elif kind == 6:   # one NaN: first / last / middle
+        d = [rng.normal() for _ in range(n)]
+        if n:
+            d[rng.choice([0, n - 1, n // 2, rng.randint(0, n - 1)])] = float("nan")
+    elif kind == 7:   # several NaNs
+        d = [rng.choice([float("nan"), 1.0, 2.0]) for _ in range(n)]
+    else:
+        d = [rng.choice(EXACT) for _ in range(n)]
+    return d
+
+
+def gen_extra(rng, lines, cover, scale):
+    """Coverage extension: shape/size, with_shape, with_capacity, data_mut writes, sum_rows / sum_cols (8-way kernel
+    widths 7..9, 15..17, ...; 0 rows / 0 columns; 1 x n and n x 1; NaN, +-0, inf), Vector constructors, Vector::sort
+    (in place on a live matrix, then further operations on the same object)."""
+    n0 = len(lines)
+    # sums on every width around the 8-way blocks, tall / wide / vectors
+    shapes = [(1, w) for w in SUM_WIDTHS] + [(w, 1) for w in SUM_WIDTHS] + [(3, w) for w in SUM_WIDTHS] + [(w, 2) for w in SUM_WIDTHS]
+    for _ in range(20 * scale):
+        shapes.append((rng.randint(1, 12), rng.choice(SUM_WIDTHS + [rng.randint(1, 40)])))
+    for (r, c) in shapes:
+        d = sum_data(rng, r * c, rng.randint(0, 6))
+        lines.extend([mat_line("load", r, c, d), "shape", "size", "sum_rows", "sum_cols"])
+        u = rng.random()
+        if u < 0.3:
+            lines.extend(["t_mut", "sum_rows", "sum_cols"])
+        elif u < 0.5:
+            lines.extend(["sumrows_mat", "shape", "sum_rows", "sum_cols"])
+        elif u < 0.7:
+            lines.extend(["sumcols_mat", "shape", "size", "sum_cols", "hrepeat 2", "sum_rows"])
+        elif u < 0.85:
+            lines.extend(["sort_data", "sum_rows", "sum_cols"])
+    # zero rows / zero columns
+    for _ in range(6 * scale):
+        c = rng.choice([1, 3, 8, 9])
+        lines.extend([mat_line("load", 0, c, []), "shape", "size", "sum_rows", "sum_cols", "sort_data", "sumcols_mat", "shape",
+                      mat_line("load", c, 0, []), "shape", "size", "sum_rows", "sum_cols", "sumrows_mat", "sum_cols", "sort_data",
+                      mat_line("load", 2, c, sum_data(rng, 2 * c, 0)), "hrepeat 0", "shape", "size", "sum_rows", "sum_cols",
+                      mat_line("load", 2, c, sum_data(rng, 2 * c, 0)), "vrepeat 0", "shape", "size", "sum_rows", "sum_cols", "dmset 0 " + f2h(1.0)])
+    # in-place sort of a live matrix, then further operations on the same object
+    for _ in range(25 * scale):
+        r, c = rng.choice([(1, rng.choice(SORT_LENS[1:16])), (rng.choice(SORT_LENS[1:12]), 1), (rng.randint(2, 6), rng.randint(2, 9))])
+        d = sort_data(rng, r * c)
+        lines.extend([mat_line("load", r, c, d), "sort_data", "shape", "tovec", rng.choice(["t", "t_mut", "r2c"]), "sort_data",
+                      "diag", "dmset %d %s" % (rng.randint(0, r * c - 1 + (1 if rng.chance(0.15) else 0)), f2h(rand_val(rng))),
+                      "fidx %d" % rng.randint(0, r * c - 1), "row 0", "sum_rows", "sort_data", "reshape -1 1", "is_lo",
+                      "get2 %d 0" % rng.randint(0, r * c - 1), "size"])
+    # data_mut writes followed by reads through the shape operations
+    for _ in range(10 * scale):
+        r, c = rng.randint(1, 8), rng.randint(1, 8)
+        lines.append(mat_line("load", r, c, distinct_data(rng, r * c)))
+        for _ in range(rng.randint(1, 4)):
+            k = rng.randint(0, r * c - 1)
+            lines.extend(["dmset %d %s" % (k, f2h(rand_val(rng))), "fidx %d" % k, "get2 %d %d" % (k // c, k % c), "row %d" % (k // c),
+                          "col %d" % (k % c)])
+        lines.extend(["dmset %d %s" % (r * c + rng.randint(0, 2), f2h(1.0)), "t", "tovec", "sum_cols"])
+    # with_shape / with_capacity, then use the object
+    for _ in range(10 * scale):
+        r, c = rng.choice(BOUNDARY_N[:11]), rng.choice(BOUNDARY_N[:11])
+        v = rng.choice([0.0, -0.0, 1.0, 2.5, float("nan"), 1e300, rng.normal()])
+        lines.extend(["with_shape %d %d" % (r, c), "with_shape_fill %d %d %s" % (r, c, f2h(v)), "shape", "size", "sum_rows", "t", "is_sym",
+                      "dmset %d %s" % (rng.randint(0, r * c - 1), f2h(3.0)), "sort_data" if rng.chance(0.5) else "diag", "hcat %d 1 %s" % (c if rng.chance(0.1) else -1, vec([9.0] * (r if rng.chance(0.9) else r + 1)))])
+        lines.extend(["with_capacity %d %d" % (r, c), "shape", "size"])
+    for (r, c) in [(0, 0), (0, 3), (3, 0), (0, 1), (1, 0)]:
+        lines.extend(["with_capacity %d %d" % (r, c), "shape", "size", "tovec", "sum_rows", "sum_cols",
+                      "with_shape %d %d" % (r, c), "with_shape_fill %d %d %s" % (r, c, f2h(1.0)), "shape", "size"])
+    # Vector constructors and Vector::sort at the length boundaries
+    for n in BOUNDARY_N + [0, 65, 100]:
+        lines.extend(["vzeros %d" % n, "vones %d" % n, "vwith_capacity %d" % n, "vempty_n %d" % n, "vnew %s" % vec(rand_data(rng, n))])
+    lines.append("vempty")
+    for n in SORT_LENS:
+        for _ in range(2 * scale if n > 1 else 1):
+            lines.append("vsort %s" % vec(sort_data(rng, n)))
+    for _ in range(40 * scale):
+        lines.append("vsort %s" % vec(sort_data(rng, rng.choice(SORT_LENS))))
+    cover["extra:lines"] = len(lines) - n0
+
+
 def corpus():
     one = f2h(1.0)
     h = lambda xs: vec(xs)
@@ -1236,6 +1585,7 @@ def gen(rng, tier):
     gen_stateless(rng, lines, cover, 2500 if tier == "quick" else 60000)
     gen_sign_strata(rng, lines, cover, 1500 if tier == "quick" else 30000)
     gen_directed(rng, lines, cover, 1 if tier == "quick" else 8)
+    gen_extra(rng, lines, cover, 1 if tier == "quick" else 8)
     cover["programs"] = nprog
     cover["max_observed_error_in_eps"] = OBS   # filled by the oracle (same dict object): calibration of VDM_C, LIN_C, ROT_C
     return lines, cover
@@ -1246,7 +1596,7 @@ def nontrivial(line, reply):
     if not t or reply.startswith("#"):
         return None
     st, toks = parse_reply(reply)
-    if t[0] in STATE_OPS:
+    if t[0] in STATE_OPS or t[0] in XSTATE_OPS:
         return "%s:%s" % (t[0], "panic" if st == "panic" else " ".join(toks[:2]))
     if t[0] in QUERY_OPS:
         return "%s:%s:%s" % (t[0], " ".join(t[1:3]), "panic" if st == "panic" else (toks[0] if toks else ""))
@@ -1259,3 +1609,8 @@ PROOF_MODULES = PROOF_MODULES + ['Compute.Props.C15Sim']
 REQUIRED_THEOREMS = REQUIRED_THEOREMS + ['Cv.C15Sim.applyOp_sim', 'Cv.C15Sim.simulation', 'Cv.C15Sim.simulation_keep', 'Cv.C15Sim.simulation_nonempty', 'Cv.C15Sim.run_count', 'Cv.C15Sim.queries_sim', 'Cv.C15Sim.proper_necessary']
 NOT_PROVED = [x for x in NOT_PROVED if not any(k in str(x) for k in ('one simulation theorem', 'operation by operation'))]
 NOT_PROVED = NOT_PROVED + ['the whole-program simulation theorem (Props/C15Sim: every program of the 19 operations commutes with an independent list-of-rows reference, panics included) holds for programs that never apply an operation to a 0-row matrix: a list of rows cannot represent a 0 x c matrix with c > 0 (proper_necessary shows the side condition cannot be dropped)']
+
+# --- source tie, in-place mutation / nested loops / decision trees (tools/rs2lean.py mut=True: regenerated from /repo/src into
+# Generated/SrcC15Mut.lean and proved equal to the hand model in Props/SrcTieC15Mut.lean)
+from . import srctie
+srctie.wire_mut(globals(), 'C15')
